@@ -25,7 +25,7 @@ def cfg_hook(rng, cfg, fam, i):
 
 def gen_cases(tier, seed):
     fams = ["exact-chain", "exact-dag", "approx-tail", "stripe-stress", "alias-stress", "buffer-stress", "exact-chain", "approx-tail", "cpu-mix", "lut-stress", "exact-chain-big", "shared-weights", "mixed-width", "strided-first"]
-    return campaign.gen_cases(tier, seed, 1, 330, 8000, families=fams, cfg_hook=cfg_hook)
+    return campaign.gen_cases(tier, seed, 1, 330, 8000, families=fams, cfg_hook=cfg_hook, extra=[("shape-ops", 36, 800), ("approx-tail2", 24, 500)])
 
 
 def rand_inputs(rng, sg, variant):
@@ -108,6 +108,8 @@ def run_output_model(art, acc, inputs_by_name, poison, counters):
 
 
 RELUS = {19, 20, 21}
+# a PACK whose 4D result has a leading dimension above one: the compiler treats that dimension as a batch and its copies move batch 0 only (DESIGN 8.3)
+PACK_FEATURE = "pack-result-with-leading-dimension-above-one"
 
 
 def net_features(net):
@@ -124,6 +126,8 @@ def net_features(net):
                 feats.add("relu-chain")
         if o.code in (3, 4) and len(o.inputs) > 2 and net.t(o.inputs[0]).dtype.name == "int16" and net.t(o.inputs[2]).dtype.name == "int32":
             feats.add("int16-conv-int32-bias")
+        if o.code == 83 and len(net.t(o.outputs[0]).shape) == 4 and net.t(o.outputs[0]).shape[0] > 1:
+            feats.add(PACK_FEATURE)
     return sorted(feats)
 
 
@@ -212,7 +216,8 @@ def run_case(case):
             for name in got[0]:
                 if not np.array_equal(got[0][name], got[1].get(name)):
                     d = np.argwhere(got[0][name] != got[1][name])
-                    viol.setdefault("output-depends-on-arena-poison", {"mech": "output-depends-on-arena-poison", "msg": "output %s differs between two arena poison patterns at %d positions (first %s): uninitialised or stale memory is consumed" % (name, len(d), d[0].tolist()), "witness": wit})
+                    pmech = "output-depends-on-arena-poison" + (":" + PACK_FEATURE if PACK_FEATURE in net_features(net) else "")
+                    viol.setdefault(pmech, {"mech": pmech, "msg": "output %s differs between two arena poison patterns at %d positions (first %s): uninitialised or stale memory is consumed" % (name, len(d), d[0].tolist()), "witness": wit})
             if tol is None:
                 continue
             out_names = [t for t in want]
